@@ -208,6 +208,9 @@ func (h *harness) checkOne(class string, c *niCase, comp compiler.Name, variant 
 	h.checkOneKey(class, "", c, comp, variant, cs, which, proof, orig, expect)
 }
 
+// lastGot: the implementation's verdict in the most recent checkOne ("1", "0", "P", "S")
+var lastGot string
+
 func (h *harness) checkOneKey(class, fixedKey string, c *niCase, comp compiler.Name, variant int, cs ctxSpec, which int, proof []byte, orig *decoded, expect string) {
 	key := class + "/" + short(comp) + "/" + c.id
 	if fixedKey != "" {
@@ -221,6 +224,7 @@ func (h *harness) checkOneKey(class, fixedKey string, c *niCase, comp compiler.N
 	ct := caseText(c, comp, variant, cs, which, proof)
 	t0 := time.Now()
 	got := implVerdict(c, comp, cs, which, proof)
+	lastGot = got
 	tImpl += time.Since(t0)
 	if got == "S" {
 		h.res.Distribution["skipped-"+class]++
@@ -475,9 +479,20 @@ func (h *harness) niCase(c *niCase, comp compiler.Name, variant int, r *vh.Rng, 
 					break
 				}
 				names, vs := a.countVariants(proof)
+				grown := false
 				for k, p2 := range vs {
+					if names[k] == "drop-element" && grown {
+						// a verifier that accepted an extra element does not check this count; with an
+						// element missing it would index past the end inside a library goroutine
+						// (unrecoverable): the accepted proof above is the failing input
+						continue
+					}
 					d2 := c.decode(comp, p2)
-					h.checkOne("array-"+names[k], c, comp, variant, cs, 0, p2, orig, d2.expectation(orig))
+					exp := d2.expectation(orig)
+					h.checkOne("array-"+names[k], c, comp, variant, cs, 0, p2, orig, exp)
+					if lastGot == "1" && exp == "0" {
+						grown = true
+					}
 				}
 			}
 		}
